@@ -47,10 +47,18 @@ const (
 	// of family 1 of the source store "src" is recorded / deleted
 	opRefB   = 13
 	opUnrefB = 15
+	// curated histories only: CreateFamily("x") whose write of the store's OPTIONS file fails (I/O error, nothing
+	// written): the call reports the error, no family exists afterwards - but the store has used up a family id
+	opCreateFail = 17
 )
 
+// tomlFailNext: the next EncodeToml seam call fails without touching the file
+var tomlFailNext bool
+
+var errTomlInjected = fmt.Errorf("injected: cannot write OPTIONS")
+
 var opName = []string{"create(a)", "create(b)", "flush1(a)", "flush1(b)", "flush2(a)", "flush2(b)", "flushEmpty(a)", "flushEmpty(b)",
-	"flushSeq(a)", "flushSeq(b)", "compact(a)", "compact(b)", "reopen", "ref(b)", "", "unref(b)"}
+	"flushSeq(a)", "flushSeq(b)", "compact(a)", "compact(b)", "reopen", "ref(b)", "", "unref(b)", "", "createFail(x)"}
 
 var famNames = []string{"a", "b"}
 
@@ -237,6 +245,11 @@ func installSeams() {
 		EncodeToml: func(fileName string, v interface{}) error {
 			// ltoml.EncodeToml = create <file>.tmp, write, close, rename: it cannot be split from outside, so the
 			// two intermediate durable states are synthesised from the state before and the final content.
+			if tomlFailNext {
+				tomlFailNext = false
+				rec.At("encodeToml " + filepath.Base(fileName) + " (fails)")
+				return errTomlInjected
+			}
 			var before *vcrashfs.Image
 			if rec != nil {
 				before = vcrashfs.Snap(rec.Root, nil)
@@ -490,6 +503,17 @@ func runHistory(rep *vevid.Report, h history) {
 		switch op {
 		case opCreateA, opCreateB:
 			_, opErr = st.CreateFamily(famNames[opFam(op)], famOption())
+		case opCreateFail:
+			tomlFailNext = true
+			_, err := st.CreateFamily("x", famOption())
+			if tomlFailNext {
+				tomlFailNext = false
+				vevid.OpFailed("createFail: CreateFamily did not write the OPTIONS file")
+			}
+			if err == nil || st.GetFamily("x") != nil {
+				viol("failed-create-leaves-family", opName[op], fmt.Sprintf("CreateFamily whose OPTIONS write failed returned %v, GetFamily(x) = %v", err, st.GetFamily("x")))
+				return
+			}
 		case opFlush1A, opFlush1B:
 			opErr = flush(st.GetFamily(famNames[opFam(op)]), map[uint32]string{1: l}, 0)
 		case opFlush2A, opFlush2B:
@@ -769,6 +793,10 @@ var curated = []history{
 	{cfg{Rollup: true}, []int{opCreateA, opFlush1A, opFlush1A, opCompactA, opReopen, opFlush1A}},
 	{cfg{Rollup: true}, []int{opCreateA, opCreateB, opRefB, opReopen, opReopen, opFlush1B}},
 	{cfg{Rollup: true}, []int{opCreateA, opCreateB, opFlush1B, opRefB, opReopen, opUnrefB, opReopen}},
+	// a CreateFamily that failed at its OPTIONS write (family ids have a hole afterwards), restarts, families created
+	// after them
+	{cfg{}, []int{opCreateFail, opCreateA, opFlush1A, opReopen, opCreateB, opFlush1B, opReopen, opFlush2A}},
+	{cfg{}, []int{opCreateA, opCreateFail, opFlush1A, opReopen, opCreateB, opFlush2B, opFlush1A, opReopen}},
 	// commits whose metadata record is larger than a page (replica sequences of 1500 leaders)
 	{cfg{Wide: true}, []int{opCreateA, opFlush1A, opFlushSeqA, opFlush1A, opReopen}},
 	{cfg{Wide: true}, []int{opCreateA, opFlushSeqA, opFlush2A, opCompactA, opFlushSeqA, opReopen, opFlush1A}},
